@@ -19,16 +19,17 @@ Proof.
   { intros tg cs t0 r t0' H0. destruct (map_st (block_visit c f) cs t0) as [[cs' t1]|]; [|discriminate].
     inversion H0; subst. reflexivity. }
   cbn [block_visit] in H.
-  destruct n as [tg cs]. destruct tg as [k lo hi| | | | | |]; try (apply CH in H; exact H).
-  destruct k; try (apply CH in H; exact H).
-  - destruct cs as [|cx [|[[| | | | | |] stmts] [|? ?]]]; try (apply CH in H; exact H).
+  Ltac fin_tag CH H := first [ apply CH in H; exact H | destruct (leaf _); [inversion H; subst; reflexivity | apply CH in H; exact H] ].
+  destruct n as [tg cs]. destruct tg as [k lo hi| | | | | |]; try (fin_tag CH H).
+  destruct k; try (fin_tag CH H).
+  - destruct cs as [|cx [|[[| | | | | |] stmts] [|? ?]]]; try (fin_tag CH H).
     destruct (status_eqb (t_status t) Cancelled); [inversion H; subst; reflexivity|].
     destruct (map_st (op_visit c f true) [cx; Node Lst stmts] _) as [[l s]|]; [|discriminate].
     destruct l as [|cx' [|[[| | | | | |] stmts'] [|? ?]]]; try discriminate.
     destruct (p_dup (o_p s)); [inversion H; subst; reflexivity | apply CH in H; exact H].
   - destruct (status_eqb (t_status t) Cancelled); [apply CH in H; exact H|].
     unfold arrow_transform in H.
-    destruct cs as [|cx [|params [|body [|asy [|gen [|tp [|rt [|? ?]]]]]]]]; try (apply CH in H; exact H).
+    destruct cs as [|cx [|params [|body [|asy [|gen [|tp [|rt [|? ?]]]]]]]]; try (fin_tag CH H).
     destruct (is_kind KBlock body); apply CH in H; exact H.
   - destruct (ident_sym (Node (K KIdent lo hi) cs)); [|inversion H; subst; reflexivity].
     match type of H with (if ?b then _ else _) = _ => destruct b end; inversion H; subst; reflexivity.
